@@ -17,8 +17,9 @@ def run(tier):
         dict(name='2 sessions: opens (accepted / rejected), closes by every cause, API calls with '
                   'live / dead ids, monitor sweeps, clock',
              consts=core.consts(Sid='{1, 2}',
-                                Alpha=A('open', 'reject', 'post', 'api', 'sess', 'send', 'tick')
-                                if th else A('open', 'reject', 'post', 'sess', 'tick'),
+                                Alpha=A('open', 'reject', 'post', 'api', 'sess', 'send', 'tick',
+                                        'shutdown')
+                                if th else A('open', 'reject', 'post', 'sess', 'tick', 'shutdown'),
                                 BodyProfile='"close"', PingInterval=2, PingTimeout=2, Monitor='TRUE',
                                 MaxMsg=1, Horizon=6, MaxReq=4 if th else 3, MaxQ=3,
                                 MaxEv=3, MaxPings=3),
@@ -48,7 +49,7 @@ def run(tier):
     ns = 6
     w = {'open': 4, 'openrej': 3, 'openws': 2, 'post': 8, 'poll': 5, 'disconnect': 0, 'send': 6,
          'save': 6, 'get': 8, 'sessctx': 4, 'transport': 4, 'wsframe': 8, 'wsdrop': 3, 'upgrade': 3,
-         'tick': 10}
+         'tick': 10, 'shutdown': 0.3}
     for impl in ('sync', 'async'):
         plans.append(dict(
             what='long histories (%d steps, up to %d sessions), clients vanishing mid-poll / '
@@ -66,6 +67,8 @@ def run(tier):
         if not p['cfg'].get('monitor'):
             continue
         for t, f in zip(traces, facts):
+            if any(o['op'] == 'shutdown' for o in f['script']):
+                continue      # monitoring was stopped by the application
             st = t[-1]['st']
             live = [i + 1 for i, s in enumerate(st['ss']) if s['used'] and not s['closed'] and
                     (i + 1) in st['table']]
